@@ -267,10 +267,6 @@ func (c *ctx) faults(p pre, o Op, o2 *Op) {
 			preKey = model.NewKV().Key()
 			m = model.NewKV()
 		}
-		var genBefore uint64
-		if d != nil {
-			_, genBefore = d.VerifDump()
-		}
 		rec := fsx.NewRecorder(dir)
 		rec.Baseline()
 		rec.FaultAt, rec.FaultShort = pt.at, pt.short
@@ -327,9 +323,6 @@ func (c *ctx) faults(p pre, o Op, o2 *Op) {
 		}
 		if k := hx.DumpKey(d); k != preKey {
 			c.fail("served-state-after-fault", p, []Op{o}, fmt.Sprintf("%s: the running database now holds %s, pre-call state was %s", faultDesc, k, preKey), replay)
-		}
-		if _, g := d.VerifDump(); g != genBefore {
-			c.fail("write-generation-after-fault", p, []Op{o}, fmt.Sprintf("%s: write generation advanced %d -> %d although nothing was saved", faultDesc, genBefore, g), replay)
 		}
 		copyDir(dir, rdir)
 		if got, rerr := recoverDump(rdir); rerr != nil || got != preKey {
